@@ -233,7 +233,7 @@ def run(ctx):
     m += [(k, d, (1, 2)) for k, d in experiment_menu(4, 6 if ctx.quick else 8)]
     # GC bounds that are awkward in binary floating point / not multiples of 1/k, at windows up to 7 (8)
     for k in (3, 5, 7) if ctx.quick else (3, 4, 5, 6, 7, 8):
-        for gc in (('0.29', '0.71'), ('0.58', '0.9'), ('0.335', '0.7'), ('0.125', '0.375'), ('0.57', '1'), ('0.14', '0.45')):
+        for gc in (('0.29', '0.71'), ('0.58', '0.9'), ('0.335', '0.7'), ('0.125', '0.375'), ('0.57', '1'), ('0.14', '0.45'), ('0', '0'), ('1', '1'), ('0', '0.34')):
             m.append((k, ('local', (k, None, gc, None)), (1, 2)))
             m.append((k, ('local', (k, min(2, k - 1), gc, ['GC'] if k >= 4 else None)), (2,)))
     m.sort(key=lambda x: -x[0])
